@@ -6,6 +6,9 @@ ROOT = os.path.dirname(os.path.dirname(os.path.abspath(__file__)))
 PAGER = "TLA+ mechanism model Pager.tla checked exhaustively by TLC (all interleavings of readers, savepoint handles and every critical section of the writer), "
 
 CLAIMS = {
+ "C20": dict(cat="model_checking", tech="TLA+ specs Backend.tla (usage contract) and Close.tla (close hand-off) checked by TLC; TLC trace validation (BackendTrace.tla) of every backend call recorded from histories, failing opens, fault-injected opens, deferred close, strace of a read-only database, and a forced close race",
+   text="every call redb makes on a monitored backend must be an enabled step of Backend.tla: within the length, none after close, exactly one close by the time redb lets go of the backend - across histories, all failing-open variants incl. an I/O error at every call of a repairing open, Database dropped with a live writer; read-only file database via strace. Found and fixed one defect; one known finding (forced race).",
+   note="monitor is sequentially consistent; read-only path observed via strace on a real file", ref="DESIGN.md 4/C20"),
  "C08": dict(cat="fault_enumeration", tech="TLA+ spec (Kv.tla + FaultyStep of KvTrace.tla) as oracle for fault enumeration: every sampled backend call of recorded histories fails (permanently / once), the recorded calls and post-fault crash/reopen observations are validated by TLC trace validation",
    text="fault enumeration judged by the TLA+ oracle: no panic, error or specified result, writes refused after a returned error, acknowledged commits present, recovery to one commit point with the failed commit entirely in or out.",
    note="trusted: TLC, harness; failing calls have no partial effect on the storage", ref="DESIGN.md 4/C08"),
